@@ -17,14 +17,18 @@ RULE = ("files from three generators - gdstk-written GDSII (layoutgen libraries:
         "/proc/self/fd before and after. Oracle (DESIGN 6.2): read_gds/read_rawcells/gds_info report an error and return "
         "nothing; gds_units/gds_timestamp report an error or exactly the complete file's values; oas_precision returns; "
         "oas_validate never reports (true, NoError) for a signed file; no signal, no sanitizer report, no hang, no new "
-        "descriptor; 50 repeated calls in one process leave the descriptor count unchanged. An evaluation is one (file, k, "
+        "descriptor; 50 repeated calls in one process leave the descriptor count unchanged; read_gds, read_rawcells, "
+        "gds_timestamp and oas_validate are also run with error_code = NULL (documented as optional): same outcome table "
+        "without the code (no cells returned; true only with a zero signature). An evaluation is one (file, k, "
         "reader) triple; it is non-trivial when the cut falls inside a record (GDSII) / inside the END record or a CBLOCK "
         "(OASIS); distinct by (file hash, k, reader)")
 ASSUMPTIONS = ["exhaustive per file (every prefix), sampled over files", "the full OASIS loader read_oas is outside the claim (DESIGN 6.3)",
                "memory leaks are not judged; descriptors are"]
 
-GDS_READERS = ["read_gds", "read_rawcells", "gds_info", "gds_units", "gds_timestamp"]
-OAS_READERS = ["oas_precision", "oas_validate"]
+# "*_null": the same reader called with error_code = NULL (library.hpp: "If not NULL, any errors will be reported through
+# error_code"; docs/cpp/layout.cpp calls read_rawcells that way): the error paths must not write through the pointer
+GDS_READERS = ["read_gds", "read_rawcells", "gds_info", "gds_units", "gds_timestamp", "read_gds_null", "read_rawcells_null", "gds_timestamp_null"]
+OAS_READERS = ["oas_precision", "oas_validate", "oas_validate_null"]
 
 
 @st.composite
@@ -77,6 +81,14 @@ def judge(reader, row, full, signed):
     elif reader in ("gds_units", "gds_timestamp"):
         if err == 0 and (a, b) != (full[1], full[2]):
             return "%s on the %d-byte prefix returned NoError with values %r, the complete file has %r" % (reader, k, (a, b), (full[1], full[2]))
+    elif reader in ("read_gds_null", "read_rawcells_null"):
+        if a != 0:
+            return "%s on the %d-byte prefix returned %d cell(s): a shortened layout with no way for the caller to see an error" % (reader, k, a)
+    elif reader == "oas_validate_null":
+        # documented: true also means "the file has no validation data", and then the signature is set to zero; without the
+        # error code a matching signature is true together with a computed (non-zero) signature
+        if signed and a == 1 and b != 0:
+            return "oas_validate (error_code = NULL) on the %d-byte prefix of a signed file reports a matching signature %d" % (k, b)
     elif reader == "oas_validate":
         if signed and err == 0 and a == 1:
             return "oas_validate on the %d-byte prefix of a signed file reports a matching signature (true, NoError)" % k
